@@ -122,7 +122,7 @@ fn history_case(
     order: &[u16],
     cfg: &inputs::InputCfg,
     same_len_bias: bool,
-) -> Result<(CaseOut, Vec<String>), Failure> {
+) -> Result<(CaseOut, Vec<String>), (Failure, Vec<String>)> {
     let mut ins: Vec<String> = input_bytes.iter().map(|b| inputs::build_input(&g.model, e.rule, b, cfg, &g.alphabet).0).collect();
     if same_len_bias && ins.len() >= 2 {
         // equal-length inputs with different content are the interesting ones (cache key = offset)
@@ -147,15 +147,21 @@ fn history_case(
         return Ok((out, ins));
     }
     let reference: Vec<Obs> = ins.iter().map(|i| observe(e.parse, i, MODE_PLAIN, 0)).collect();
+    // the history is parsed out of ONE reused buffer (a REPL / line reader does that): successive inputs then share their
+    // address, and equal-length ones their whole address range
+    let mut buf = String::with_capacity(inputs::PUMP_MAX_LEN + 64);
     for (step, ix) in order.iter().enumerate() {
         let k = ((*ix as usize) * ins.len()) >> 16;
-        let obs = observe(e.parse, &ins[k], MODE_PLAIN, 0);
+        buf.clear();
+        buf.push_str(&ins[k]);
+        let obs = observe(e.parse, &buf, MODE_PLAIN, 0);
         if obs.result_key() != reference[k].result_key() {
-            return Err(fail(
-                format!("result depends on earlier parse calls: step {step} re-parsing input #{k} {:?} of rule {}", ins[k], e.rule),
+            let f = fail(
+                format!("result depends on earlier parse calls: step {step} re-parsing input #{k} {:?} of rule {} (inputs parsed from one reused buffer)", ins[k], e.rule),
                 reference[k].summary(),
                 obs.summary(),
-            ));
+            );
+            return Err((f, ins));
         }
     }
     let mut lens = BTreeMap::new();
@@ -198,9 +204,8 @@ fn run_histories(cr: &CaseRunner, g: &GCtx, e: &RuleEntry, partial: &mut Partial
             }
             Ok(())
         }
-        Err(f) => {
+        Err((f, ins)) => {
             *failed.borrow_mut() = true;
-            let ins: Vec<String> = bytes.iter().map(|b| inputs::build_input(&g.model, e.rule, b, &cfg, &g.alphabet).0).collect();
             let msg = f.msg.clone();
             *last.borrow_mut() = Some((ins, order.clone(), f));
             Err(TestCaseError::fail(msg))
@@ -367,6 +372,10 @@ fn c07_case(g: &GCtx, e: &RuleEntry, input: &str) -> Result<CaseOut, Failure> {
     }
     if !o.ok && o.stats.growth_entered > 0 {
         out.classes.push("failing_after_entering_growth");
+        out.nontrivial = true;
+    }
+    if o.stats.growth_steps >= 1 && o.stats.hooks_failed > 0 {
+        out.classes.push("check_failed_during_growth");
         out.nontrivial = true;
     }
     out.classes.push(if o.ok { "accept" } else { "reject" });
@@ -648,8 +657,15 @@ fn run_c20(table: &'static [GrammarEntry], ctxs: &[(usize, GCtx)], cr: &CaseRunn
                 (o.ok, o.debug, o.err_pos, o.err_spec, o.panic.is_some())
             })
             .collect();
-        // assignment
+        // assignment; in a quarter of the rounds every thread additionally starts with the SAME item - the most deeply
+        // nested one - so that all threads are inside the same rules on the same input at once
         let mut per: Vec<Vec<usize>> = vec![vec![]; nthreads];
+        if assign[199] % 4 == 0 {
+            let deepest = (0..work.len()).max_by_key(|i| work[*i].3.len()).unwrap();
+            for p in per.iter_mut() {
+                p.push(deepest);
+            }
+        }
         for i in 0..work.len() {
             per[assign[i % assign.len()] as usize % nthreads].push(i);
         }
@@ -662,12 +678,16 @@ fn run_c20(table: &'static [GrammarEntry], ctxs: &[(usize, GCtx)], cr: &CaseRunn
                     let barrier = &barrier;
                     // deeply nested inputs need more than the default 2 MB thread stack
                     std::thread::Builder::new().stack_size(512 << 20).spawn_scoped(s, move || {
+                        // every thread parses out of its own reused buffer
+                        let mut buf = String::with_capacity(inputs::PUMP_MAX_LEN + 64);
                         barrier.wait();
                         let mut out = vec![];
                         // each thread walks its items twice (repetition)
                         for _rep in 0..2 {
                             for &i in idxs {
-                                let o = observe(work[i].0, &work[i].3, MODE_PLAIN, 0);
+                                buf.clear();
+                                buf.push_str(&work[i].3);
+                                let o = observe(work[i].0, &buf, MODE_PLAIN, 0);
                                 out.push((i, (o.ok, o.debug, o.err_pos, o.err_spec, o.panic.is_some())));
                             }
                         }
@@ -770,9 +790,12 @@ pub fn replay(table: &'static [GrammarEntry], by_id: &HashMap<String, ModelEntry
                 if let Some(e) = find_rule(table, *ti, rule) {
                     partial.evaluations += 1;
                     let reference: Vec<Obs> = ins.iter().map(|i| observe(e.parse, i, MODE_PLAIN, 0)).collect();
+                    let mut buf = String::with_capacity(inputs::PUMP_MAX_LEN + 64);
                     for ix in &order {
                         let k = ((*ix as usize) * ins.len()) >> 16;
-                        let obs = observe(e.parse, &ins[k], MODE_PLAIN, 0);
+                        buf.clear();
+                        buf.push_str(&ins[k]);
+                        let obs = observe(e.parse, &buf, MODE_PLAIN, 0);
                         if obs.result_key() != reference[k].result_key() {
                             partial.violations.push(json!({"property": cr.prop, "kind": "history", "grammar_text": g.text, "rule": rule, "message": "result depends on earlier parse calls"}));
                             break;
